@@ -224,4 +224,226 @@ theorem isClosure_iff (f : FuncFeat) :
 def rowOf (tag : Str) : Option (List (Str × Str)) :=
   (Generated.ResolverTable.table.find? fun row => row.1 == tag).map (·.2)
 
+/-! ## declaration vs reference: the positions of a bare identifier in the modelled statement forms -/
+
+/-- the role a name occurrence has for Python: a binding (declaration), the binding of a class variable, a use, a label -/
+inductive Role where
+  | decl | classVar | ref | label
+deriving DecidableEq, Repr
+
+def roleOf : NameClass → Role
+  | .declClassVar => .classVar
+  | .argumentLabel => .label
+  | .var => .ref
+  | .classRef => .ref
+  | .thisRef => .ref
+  | _ => .decl
+
+/-- where a bare identifier can stand in the statement forms the model covers; the enclosing context (module, blocks, class
+    and function bodies, outer expressions) is an arbitrary tag list in front of the suffix -/
+inductive NamePos where
+  | assignTarget            -- `x = …`, `x, y = …`            assign . assign_namelist . var
+  | annTarget               -- `x: T = …`, `x: T`             anno_assign . assign_namelist . var
+  | classVarTarget (anno : Bool)   -- `x: ClassVar[T] = …` / `x: ClassVar = …`
+  | augTarget               -- `x += …`                        aug_assign . assign_namelist . var
+  | forTarget               -- `for x in …`                    for_stmt . for_namelist . name
+  | compTarget              -- `[… for x in …]`                comp_for . for_namelist . name
+  | withAs                  -- `with … as x`                   with_item . name
+  | exceptAs                -- `except E as x`                 except_clause . name
+  | lambdaParam             -- `lambda x: …`                   lambdaparams . name
+  | param                   -- `def f(x: T = …)`               typedparam . name
+  | defName                 -- `def f(…)`                      function_def_raw . name
+  | className               -- `class C…`                      class_def_raw . name
+  | importedName            -- `from m import x [as y]`        import_as_name . name
+  | kwLabel                 -- `f(x=…)`                        argvalue . name
+  | attrName                -- `e.x`                           getattr . name
+  | valueOf (stmt : Str)    -- the whole operand of a statement / clause: `… = x`, `return x`, `if x:` …   stmt . var
+  | inExpr (p2 p1 : Str)    -- deeper inside an expression: two enclosing tags, then var
+deriving DecidableEq, Repr
+
+def NamePos.suffix : NamePos → List Str
+  | .assignTarget => [c!"assign", c!"assign_namelist", c!"var"]
+  | .annTarget => [c!"anno_assign", c!"assign_namelist", c!"var"]
+  | .classVarTarget true => [c!"class_var_anno_assign", c!"assign_namelist", c!"var"]
+  | .classVarTarget false => [c!"class_var_assign", c!"assign_namelist", c!"var"]
+  | .augTarget => [c!"aug_assign", c!"assign_namelist", c!"var"]
+  | .forTarget => [c!"for_stmt", c!"for_namelist", c!"name"]
+  | .compTarget => [c!"comp_for", c!"for_namelist", c!"name"]
+  | .withAs => [c!"with_item", c!"name"]
+  | .exceptAs => [c!"except_clause", c!"name"]
+  | .lambdaParam => [c!"lambdaparams", c!"name"]
+  | .param => [c!"typedparam", c!"name"]
+  | .defName => [c!"function_def_raw", c!"name"]
+  | .className => [c!"class_def_raw", c!"name"]
+  | .importedName => [c!"import_as_name", c!"name"]
+  | .kwLabel => [c!"argvalue", c!"name"]
+  | .attrName => [c!"getattr", c!"name"]
+  | .valueOf stmt => [stmt, c!"var"]
+  | .inExpr p2 p1 => [p2, p1, c!"var"]
+
+/-- CPython: `Name(ctx=Store)` of a binding statement / clause, parameters, def / class / import names are bindings;
+    the target of an augmented assignment re-binds an existing name (no declaration); everything else is a use -/
+def NamePos.pyRole : NamePos → Role
+  | .assignTarget => .decl
+  | .annTarget => .decl
+  | .classVarTarget _ => .classVar
+  | .augTarget => .ref
+  | .forTarget => .decl
+  | .compTarget => .decl
+  | .withAs => .decl
+  | .exceptAs => .decl
+  | .lambdaParam => .decl
+  | .param => .decl
+  | .defName => .decl
+  | .className => .decl
+  | .importedName => .decl
+  | .kwLabel => .label
+  | .attrName => .ref
+  | .valueOf _ => .ref
+  | .inExpr _ _ => .ref
+
+/-- the tags under which grammar.lark lists the targets of a statement (`assign_namelist` in every generated pattern) -/
+def namelistTags : List Str :=
+  [Generated.DeclMatchers.localNamelist, Generated.DeclMatchers.forwardNamelist, Generated.DeclMatchers.altNamelist] ++
+    Generated.DeclMatchers.classVarParents.filterMap (fun p => p[1]?)
+
+/-- side conditions of a position: value / expression positions are not target lists -/
+def NamePos.wf : NamePos → Bool
+  | .valueOf stmt => !namelistTags.contains stmt
+  | .inExpr _ p1 => !namelistTags.contains p1
+  | _ => true
+
+/-- the model's class of the identifier at a position below context `ctx` -/
+def classAt (ctx : List Str) (pos : NamePos) (toks : Str) (recv : Bool) : NameClass :=
+  let f : NameFeat := ⟨ctx ++ pos.suffix, toks, recv⟩
+  if pos.suffix.getLast? = some c!"name" then nameClass f else varClass f
+
+theorem fromEnd_append (ctx suf : List Str) (k : Nat) (hk : k ≤ suf.length) : fromEnd (ctx ++ suf) k = fromEnd suf k := by
+  unfold fromEnd
+  by_cases h0 : k = 0
+  · simp [h0]
+  · have h1 : ¬ (ctx ++ suf).length < k := by simp; omega
+    have h2 : ¬ suf.length < k := by omega
+    simp only [h0, h1, h2, false_or, if_false]
+    rw [List.getElem?_append_right (by simp; omega)]
+    congr 1
+    simp; omega
+
+theorem lastIndexOf_eq_fromEnd (xs : List Str) (x : Str) (k : Nat) (hk : 1 ≤ k) (hkl : k ≤ xs.length)
+    (h : lastIndexOf xs x = (xs.length : Int) - k) : fromEnd xs k = some x := by
+  unfold lastIndexOf at h
+  split at h
+  · next i hi =>
+    obtain ⟨hlt, hp, _⟩ := List.findIdx?_eq_some_iff_getElem.mp hi
+    simp only [List.length_reverse] at hlt
+    have hik : i = k - 1 := by omega
+    unfold fromEnd
+    have h0 : ¬ (k = 0 ∨ xs.length < k) := by omega
+    simp only [h0, if_false]
+    have : xs.reverse[i] = x := by simpa using hp
+    rw [List.getElem_reverse] at this
+    rw [List.getElem?_eq_getElem (by omega)]
+    simp only [Option.some.injEq]
+    rw [← this]
+    congr 1
+    omega
+  · omega
+
+/-! ### evaluating the path tests below an arbitrary context -/
+
+theorem fe1_1 (ctx : List Str) (a : Str) : fromEnd (ctx ++ [a]) 1 = some a := by
+  rw [fromEnd_append _ _ _ (by simp)]; simp [fromEnd]
+theorem fe2_1 (ctx : List Str) (a b : Str) : fromEnd (ctx ++ [a, b]) 1 = some b := by
+  rw [fromEnd_append _ _ _ (by simp)]; simp [fromEnd]
+theorem fe2_2 (ctx : List Str) (a b : Str) : fromEnd (ctx ++ [a, b]) 2 = some a := by
+  rw [fromEnd_append _ _ _ (by simp)]; simp [fromEnd]
+theorem fe3_1 (ctx : List Str) (a b c : Str) : fromEnd (ctx ++ [a, b, c]) 1 = some c := by
+  rw [fromEnd_append _ _ _ (by simp)]; simp [fromEnd]
+theorem fe3_2 (ctx : List Str) (a b c : Str) : fromEnd (ctx ++ [a, b, c]) 2 = some b := by
+  rw [fromEnd_append _ _ _ (by simp)]; simp [fromEnd]
+theorem fe3_3 (ctx : List Str) (a b c : Str) : fromEnd (ctx ++ [a, b, c]) 3 = some a := by
+  rw [fromEnd_append _ _ _ (by simp)]; simp [fromEnd]
+theorem dl2 (ctx : List Str) (a b : Str) : (ctx ++ [a, b]).dropLast = ctx ++ [a] := by
+  rw [List.dropLast_append_of_ne_nil (by simp)]; rfl
+theorem dl3 (ctx : List Str) (a b c : Str) : (ctx ++ [a, b, c]).dropLast = ctx ++ [a, b] := by
+  rw [List.dropLast_append_of_ne_nil (by simp)]; rfl
+
+theorem forward_false (f : NameFeat)
+    (h : fromEnd f.tags 3 ≠ some Generated.DeclMatchers.forwardAssign ∨ fromEnd f.tags 2 ≠ some Generated.DeclMatchers.forwardNamelist) :
+    isDeclThisVarForward f = false := by
+  unfold isDeclThisVarForward
+  split
+  · rfl
+  · split
+    · rfl
+    · rcases h with h | h <;> simp [h]
+
+theorem alt_false_of_parent (f : NameFeat) (h : f.parentTag ≠ some Generated.DeclMatchers.altNamelist) :
+    inDeclAltClassType f = false := by
+  unfold inDeclAltClassType
+  simp [h]
+
+theorem alt_false_of_third (f : NameFeat) (hl : 3 ≤ f.tags.length)
+    (h : ∀ t ∈ Generated.DeclMatchers.altAssigns, fromEnd f.tags 3 ≠ some t) : inDeclAltClassType f = false := by
+  unfold inDeclAltClassType
+  split
+  · rfl
+  · simp only [List.any_eq_false, beq_iff_eq]
+    intro t ht heq
+    exact h t ht (lastIndexOf_eq_fromEnd f.tags t 3 (by omega) hl (by simpa using heq))
+
+/-- the generated `DeclableMatcher` constants as they are today (everything below is re-decided when primary.py changes one) -/
+theorem matcherFacts :
+    Generated.DeclMatchers.localAssigns = [c!"assign", c!"anno_assign"]
+    ∧ Generated.DeclMatchers.localNamelist = c!"assign_namelist"
+    ∧ Generated.DeclMatchers.forwardAssign = c!"anno_assign" ∧ Generated.DeclMatchers.forwardNamelist = c!"assign_namelist"
+    ∧ Generated.DeclMatchers.altNamelist = c!"assign_namelist"
+    ∧ Generated.DeclMatchers.altAssigns = [c!"class_assign", c!"template_assign"]
+    ∧ Generated.DeclMatchers.classVarParents = [[c!"class_var_assign", c!"assign_namelist"], [c!"class_var_anno_assign", c!"assign_namelist"]]
+    ∧ Generated.DeclMatchers.nameOnlyParents = [c!"for_namelist", c!"except_clause", c!"with_item", c!"lambdaparams"]
+    ∧ Generated.DeclMatchers.nameTag = c!"name" ∧ Generated.DeclMatchers.paramParent = c!"typedparam"
+    ∧ Generated.DeclMatchers.classTypeParents = [c!"class_def_raw", c!"function_def_raw"]
+    ∧ Generated.DeclMatchers.importParent = c!"import_as_name"
+    ∧ Generated.DeclMatchers.localExcluded = [c!"cls", c!"self"]
+    ∧ namelistTags = [c!"assign_namelist", c!"assign_namelist", c!"assign_namelist", c!"assign_namelist", c!"assign_namelist"] := by
+  decide +kernel
+
+theorem varClass_ref_of (f : NameFeat) (h1 : isDeclClassVar f = false) (h2 : isDeclThisVarForward f = false)
+    (h3 : isDeclLocalVar f = false) (h4 : inDeclAltClassType f = false) : roleOf (varClass f) = .ref := by
+  simp only [varClass, h1, h2, h3, h4, Bool.false_eq_true, if_false]
+  split
+  · rfl
+  · split <;> rfl
+
+/-- `is_decl_class_var` three levels down: only the statement tag and the target-list tag matter -/
+theorem classVar3 (ctx : List Str) (a b toks : Str) (recv : Bool) :
+    isDeclClassVar ⟨ctx ++ [a, b, c!"var"], toks, recv⟩ =
+      ((a == c!"class_var_assign" && b == c!"assign_namelist") || (a == c!"class_var_anno_assign" && b == c!"assign_namelist")) := by
+  simp only [isDeclClassVar, matcherFacts.2.2.2.2.2.2.1, dl3, endsWith2, fe2_1, fe2_2, List.any_cons, List.any_nil, Bool.or_false]
+  simp
+
+theorem local3 (ctx : List Str) (a b toks : Str) (recv : Bool) :
+    isDeclLocalVar ⟨ctx ++ [a, b, c!"var"], toks, recv⟩ =
+      (((a == c!"assign" && b == c!"assign_namelist") || (a == c!"anno_assign" && b == c!"assign_namelist"))
+        && !isClassOrThis toks && AstPath.dsnElemCounts toks == 1) := by
+  have hlt : (NameFeat.mk (ctx ++ [a, b, c!"var"]) toks recv).lastTag = some c!"var" := fe3_1 ctx a b _
+  have hne : (some c!"var" == some Generated.DeclMatchers.nameTag) = false := by decide
+  simp only [isDeclLocalVar, hlt, hne, Bool.and_false, Bool.false_eq_true, if_false, matcherFacts.1, matcherFacts.2.1, dl3, endsWith2,
+    fe2_1, fe2_2, List.any_cons, List.any_nil, Bool.or_false]
+  simp
+
+theorem classVar2_false (ctx : List Str) (stmt toks : Str) (recv : Bool) (hs : stmt ≠ c!"assign_namelist") :
+    isDeclClassVar ⟨ctx ++ [stmt, c!"var"], toks, recv⟩ = false := by
+  have hb : (stmt == c!"assign_namelist") = false := by simpa using hs
+  simp only [isDeclClassVar, matcherFacts.2.2.2.2.2.2.1, dl2, endsWith2, fe1_1, List.any_cons, List.any_nil, Bool.or_false]
+  simp [hs]
+
+theorem local2_false (ctx : List Str) (stmt toks : Str) (recv : Bool) (hs : stmt ≠ c!"assign_namelist") :
+    isDeclLocalVar ⟨ctx ++ [stmt, c!"var"], toks, recv⟩ = false := by
+  have hlt : (NameFeat.mk (ctx ++ [stmt, c!"var"]) toks recv).lastTag = some c!"var" := fe2_1 ctx stmt _
+  have hne : (some c!"var" == some Generated.DeclMatchers.nameTag) = false := by decide
+  simp only [isDeclLocalVar, hlt, hne, Bool.and_false, Bool.false_eq_true, if_false, matcherFacts.1, matcherFacts.2.1, dl2, endsWith2,
+    fe1_1, List.any_cons, List.any_nil, Bool.or_false]
+  simp [hs]
+
 end Tranp.C02
